@@ -100,6 +100,22 @@ def Mutex.unlock (m : Mutex) (a : Aid) : Except Err (Mutex × Option (Aid × Res
 def Mutex.lock (m : Mutex) (a : Aid) (r : Res) : Mutex × Option Res :=
   (m.lockAsync a).1.waitFor a r
 
+/-! ### variant for the PROPOSED fix of finding `mutex-relock-by-owner-returns` (props/C14/fix_series/01-mutex-relock.patch)
+
+NOT the current code and used by no driver: `MutexAcquisitionImpl::wait_for` testing `granted_` instead of
+`mutex_->get_owner() == issuer_`.  `granted` = `is_granted()` of the acquisition being waited on (for the one-simcall
+`lock`: what `lock_async` just returned).  The two variants differ only when the owner of a NON-recursive mutex locks it
+again: the acquisition is queued, not granted — the current code returns at once, the fixed code blocks (as under the
+model checker, whose MUTEX_WAIT is enabled iff `is_granted()`).  When the fix is applied to /repo, `Mutex.waitFor` /
+`Mutex.lock` must become these (see props/C14/NOTES.md, "after the fix"). -/
+
+def Mutex.waitForFixed (m : Mutex) (a : Aid) (r : Res) (granted : Bool) : Mutex × Option Res :=
+  if granted then (m, some r)
+  else ({ m with queue := markLast a r m.queue }, none)
+
+def Mutex.lockFixed (m : Mutex) (a : Aid) (r : Res) : Mutex × Option Res :=
+  (m.lockAsync a).1.waitForFixed a r (m.lockAsync a).2
+
 /-! ## Semaphore  (SemaphoreImpl.cpp) -/
 
 structure SAcq where
